@@ -1,6 +1,9 @@
 package flags
 
-func levenshtein(s string, t string) int {
+func levenshtein(a string, b string) int {
+	// Distances are counted in characters, not bytes
+	s, t := []rune(a), []rune(b)
+
 	if len(s) == 0 {
 		return len(t)
 	}
@@ -15,7 +18,7 @@ func levenshtein(s string, t string) int {
 		dists[i][0] = i
 	}
 
-	for j := range t {
+	for j := range dists[0] {
 		dists[0][j] = j
 	}
 
